@@ -1181,6 +1181,11 @@ func (vc *VC) trCall(x *ECall, env *Env) TV {
 	case "held":
 		a := vc.tr(x.Args[0], env)
 		return TV{T: B, S: vc.envHeapRead(env, "#held", B, a.S)}
+	case "oncedone":
+		// oncedone(o): the sync.Once o has fired (tracked under "flag model-once")
+		a := vc.tr(x.Args[0], env)
+		vc.heapKeySort("#once", B)
+		return TV{T: B, S: vc.envHeapRead(env, "#once", B, a.S)}
 	case "isnil":
 		a := vc.tr(x.Args[0], env)
 		switch a.T.Underlying().(type) {
